@@ -25,8 +25,8 @@ def obligations(tier):
         dict(name="chart_attr_edit", func="chart_attr_edit", timeout=T, bounds="blank simfile + blank chart, one field set by attribute"),
         *[dict(name=f"edit_step[op{i},k%2=={r}" + (f",pre_ser={ps}]" if ps is not None else "]"), func="edit_step",
                pre=f"op == {i} and k % 2 == {r}" + (f" and pre_ser == {ps}" if ps is not None else ""), timeout=T,
-               bounds=f"edit operation {i} (of 13: set/del by key, attribute, charts appended/removed/replaced/reversed, extra components assigned and edited in place, chart field by key) from a small pre-state that may already have been serialized once, symbolic key index (8 keys) and value <=3")
-          for i in range(13) for r in range(2) for ps in ((False, True) if i in (8, 12) else (None,))],
+               bounds=f"edit operation {i} (of 15: incl. chart mapping reordered / fields assigned in another order; set/del by key, attribute, charts appended/removed/replaced/reversed, extra components assigned and edited in place, chart field by key) from a small pre-state that may already have been serialized once, symbolic key index (8 keys) and value <=3")
+          for i in range(15) for r in range(2) for ps in ((False, True) if i in (8, 12, 13, 14) else (None,))],
         *[dict(name=f"autodetect[v{v},k%4=={r}]", func="autodetect", pre=f"v == {v} and k % 4 == {r}", timeout=T, bounds="first key symbolic index (not VERSION), concrete value incl. escapes, real tokenizer") for v in range(3) for r in range(4)],
         dict(name="blank_and_corpus", func="blank_and_corpus", timeout=T, bounds="SMSimfile.blank() and the SM corpus file"),
         *([dict(name="lexer_lemma[|v|<=1]", func="lexer_lemma", pre="len(v) <= 1", timeout=2 * T, bounds="dependency contract: str(MSDParameter(('K', v))) parses back to ('K', v) with the real serializer and lexer, any character outside the excluded gaps, |v| <= 1")]
